@@ -71,6 +71,26 @@ CLAIMS = {
             'DESIGN.md §3 C15', 'Not decided: that the regexes mask every RFC-valid credential (language inclusion); flows through objects whose type the resolver cannot bind (listed in evidence); exception texts of external libraries.'),
 }
 
+# obligations added in round 6 (appended to the level text of the property)
+ROUND6 = {
+    'C01': " Round 6: a per-incarnation value on the wire that the receiver compares is a necessary condition for 'one id = one original frame' across a restart of the source; absent on this tree (known finding D22).",
+    'C02': " Round 6: the prefix match of a subscription is narrowed to the listed topic names by the receiver; the raw payload is the row-major flattening the decoder rebuilds (share of the C09 round trip).",
+    'C03': " Round 6: a client being timed out does not count as a connected required output; the repeated request of a waiting join spares sources whose set is complete (known finding D23).",
+    'C04': " Round 6: the repeated request of a waiting join spares sources whose set is complete (known finding D23).",
+    'C05': " Round 6: under balanced outputs only requests of synchronized clients make an output eligible.",
+    'C06': " Round 6: every request - also a repeated id - re-arms the publisher; a required output being timed out is not connected; restart of a publisher is detectable only with an incarnation value (known finding, D22 variant).",
+    'C08': " Round 6: the announcing side of the out-of-band channel writes to every socket unconditionally; MQ.send services the request sockets also when there is nothing to publish; PropagateError is never swallowed by the LOOP_EXC=false handler (oracle corrected).",
+    'C09': " Round 6: per-topic loops of encoder and decoder carry no value from one topic to the next (definite-assignment walk); a read-only array is adopted only after its owner was looked at (known finding D29).",
+    'C10': " Round 6: a read-only array is adopted without a copy only after its owner was looked at (known finding D29).",
+    'C12': " Round 6: no spelling of a value-less option is dropped by the parser ('--sources=' reaches the wiring loop); an allocated ipc output is looked up in the set of bound ipc addresses.",
+    'C13': " Round 6: 'end' is a position inside the newest file; a file still listed after the rescan is read once more before the reader leaves it.",
+    'C14': " Round 6: shares of the re-read-before-leaving and end-position rules of C13; a roll-over never re-uses the name a saved position points into (share of C13.R1).",
+    'C15': " Round 6: dlcache.py is in scope (seeded entry from Filter.download_cached_files); values clipped at the tail cannot be masked; assert messages and handler-logged exception objects are tracked by origin; normalize_config must not store a cut URI (5 known findings); the host part of the masks may be empty.",
+    'C16': " Round 6: the YAML allow-list value is iterated only after a string was ruled out.",
+    'C17': " Round 6: the separator test folds the case the pattern accepts; normalize_config keeps every configured transform.",
+    'C18': " Round 6: the stop flag is a latch (lowered only by the next start), fini() is among the emission sites that must stop the heartbeat first, and the facet key normaliser is total and applied after flattening (START cannot be lost to a key's spelling).",
+}
+
 NOT_APPLICABLE = {
     'C11': 'Every clause is an equality between values computed by string parsing over an unbounded grammar; there is no renderer to pair with the parsers and the only structural facts in reach are already caught by the existing test_normalize_config tests, so a static proxy would detect nothing new (DESIGN.md §5).',
 }
@@ -85,6 +105,7 @@ def main():
         if pid not in reg:
             continue
         tech, text, ref, nd = CLAIMS[pid]
+        text += ROUND6.get(pid, '')
         checks.append({
             'property_id': pid,
             'quick_cmd': f'./check {pid} --tier quick',
